@@ -271,6 +271,19 @@ def main():
                     qr.energy_units(units):
                 ta = TimeAxis(start, N, dt, atype=atype,
                               frequency_start=fstart)
+                # every third axis goes through the public shift_to_zero()
+                # first; whatever it does, the axis stays a grid that starts
+                # at its declared start and survives the round trip
+                if r % 3 == 2:
+                    ta.shift_to_zero()
+                    rp = dict(rp, shifted=True)
+                grid = ta.start + numpy.arange(N) * ta.step
+                if ta.length != N or numpy.abs(
+                        numpy.asarray(ta.data) - grid).max() > 1e-11 * max(
+                            1.0, abs(start) + N * abs(dt)):
+                    report("axis-round-trip", "axis-is-its-own-grid:" + atype,
+                           dict(rp, start_attr=float(ta.start),
+                                first=float(ta.data[0])), rp)
                 fa = ta.get_FrequencyAxis()
                 tb = fa.get_TimeAxis()
                 sc = max(1.0, abs(start) + N * abs(dt))
